@@ -38,8 +38,10 @@ META = {
             'encoding and decrypt (independent AES-256-CBC/PKCS7) to the reference encoding; plain columns carry the reference encoding; '
             'null is sent as null; decoded rows equal the bound rows including None.',
     'note': 'Trusted base: vt/spec/frames.py (PREPARED / RESULT builders, EXECUTE parser), vt/spec/values.py (value codec), the '
-            '`cryptography` package. Encrypted columns are declared blob by the server, as the feature documents. The compiled '
-            'decoders are covered by C07, which calls this module inside its Cython build.',
+            '`cryptography` package. Encrypted columns are declared blob by the server, as the feature documents. This claim is '
+            'for the pure-Python decoders (ProtocolHandler and its subclasses as built in this image); the compiled row parsers '
+            '(obj_parser.pyx) are judged by the same run_cases() inside the out-of-tree Cython build of the C07 check, which is '
+            'claimed separately (see MANIFEST / DESIGN.md section 9).',
     'design_ref': 'C39',
 }
 
